@@ -66,7 +66,9 @@ def _ref_tree_case(rng: Rng, tier: str):
         take = r.randint(1, max(1, len(data_idx) - k))
         folders.append({"members": data_idx[k:k + take], "chain": [dict(f) for f in r.pick(c06.CHAINS[:7])]})
         k += take
-    layout = {"folders": folders, "crc": "substream", "header": r.pick(["raw", "lzma"]), "packcrc": False, "packpos": 0, "omit_nums": r.chance(0.5), "dummy": 0, "dummy_tail": 0,
+    # where the digests live is the writer's choice: per member, one per folder, or none at all (the selection of members must
+    # not depend on it: skipped members are still decoded, because the stream only moves forward)
+    layout = {"folders": folders, "crc": rng.sub("crcmode").wpick([(3, "substream"), (2, "folder"), (2, "none")]), "header": r.pick(["raw", "lzma"]), "packcrc": False, "packpos": 0, "omit_nums": r.chance(0.5), "dummy": 0, "dummy_tail": 0,
               "emptyfile_vector_always": False, "names_first": True, "password": None, "iv_seed": 1, "no_substreams": False, "header_crc": True}
     names = [m["name"] for m in members]
     stub = [rw.Mem(n, b"", "file", None, None) for n in names]
